@@ -319,6 +319,57 @@ theorem rfc_accept_after_comment (v : JV) (w b : Bytes) (h : Rfc8259.SerDoc v w)
     (AslProofs.XdlRfc.serDoc_nonul h)
   simpa [rfc_accept v w h hd] using this
 
+open AslProofs.XdlCmt in
+/-- a text that ends inside a block comment (opened at any such position, body of the grammar, the closing `*/` not
+    reached - e.g. `[1]/***/`) is rejected: the analogue of `prefix_reject` for comments -/
+theorem unclosed_block_comment_rejected (a b : Bytes) (q : PState) (ha : loop init a = some (false, q))
+    (hc : q.inComment = false) (h1 : q.state ≠ .STRING) (h2 : q.state ≠ .QPROPERTY) (h3 : q.state ≠ .ESCAPE)
+    (hb : BlockBody b) (na : (0 : UInt8) ∉ a) (nb : (0 : UInt8) ∉ b) :
+    decode (a ++ 47 :: 42 :: b) = some none := by
+  obtain ⟨f, q', hl, hi, _⟩ := loop_ok a init inv_init
+  rw [ha] at hl; cases hl
+  have ho := outside_of_inv q hi hc h1 h2 h3
+  have n1 : (0 : UInt8) ∉ a ++ 47 :: 42 :: b := by simp [na, nb]
+  have e : parse init (a ++ 47 :: 42 :: b) = some (inC q (.COMMENT :: q.ctx)) := by
+    simp only [parse, show init.state ≠ .ERR by decide, if_false, cstr_of_nonul _ n1, loop_append, ha, block_open q ho b hb]
+    rfl
+  have := flush_in_comment q q.ctx
+  simp only [decode, decodeFrom, e]
+  cases hp : parse (inC q (.COMMENT :: q.ctx)) [32] with
+  | none => simp [hp] at this
+  | some p2 => simpa [hp] using this
+
+/-- texts related by removing comments one at a time (each one of the grammar, at a position outside strings,
+    in any order - the prefix before the removed comment may itself still hold comments) -/
+inductive StripsTo : Bytes → Bytes → Prop
+  | refl (t : Bytes) : StripsTo t t
+  | block (a b rest t : Bytes) (q : PState) : loop init a = some (false, q) → q.inComment = false →
+      q.state ≠ .STRING → q.state ≠ .QPROPERTY → q.state ≠ .ESCAPE → AslProofs.XdlCmt.BlockBody b →
+      (0 : UInt8) ∉ a → (0 : UInt8) ∉ b → (0 : UInt8) ∉ rest →
+      StripsTo (a ++ rest) t → StripsTo (a ++ 47 :: 42 :: (b ++ 42 :: 47 :: rest)) t
+  | line (a b rest t : Bytes) (nl : UInt8) (q : PState) : loop init a = some (false, q) → q.inComment = false →
+      q.state ≠ .STRING → q.state ≠ .QPROPERTY → q.state ≠ .ESCAPE → AslProofs.XdlCmt.LineBody b → (nl = 10 ∨ nl = 13) →
+      (0 : UInt8) ∉ a → (0 : UInt8) ∉ b → (0 : UInt8) ∉ rest →
+      StripsTo (a ++ nl :: rest) t → StripsTo (a ++ 47 :: 47 :: (b ++ nl :: rest)) t
+
+/-- any number of comments: the commented text decodes like the stripped one; with `rfc_accept`, a JSON document
+    with comments of the grammar between its tokens yields the value of the document -/
+theorem comments_transparent (w t : Bytes) (h : StripsTo w t) : decode w = decode t := by
+  induction h with
+  | refl => rfl
+  | block a b rest t q ha hc h1 h2 h3 hb na nb nr _ ih =>
+    rw [block_comment_transparent a b rest q ha hc h1 h2 h3 hb na nb nr, ih]
+  | line a b rest t nl q ha hc h1 h2 h3 hb hnl na nb nr _ ih =>
+    rw [line_comment_transparent a b rest nl q ha hc h1 h2 h3 hb hnl na nb nr, ih]
+
+/-- non-vacuity: `[1/*x*/,//y` LF `2]` strips to `[1,` LF `2]` (two steps) -/
+example : StripsTo [91, 49, 47, 42, 120, 42, 47, 44, 47, 47, 121, 10, 50, 93] [91, 49, 44, 10, 50, 93] :=
+  .block [91, 49] [120] [44, 47, 47, 121, 10, 50, 93] _ _ rfl rfl (by decide) (by decide) (by decide)
+    (.other 120 _ (by decide) .nil) (by decide) (by decide) (by decide)
+    (.line [91, 49, 44] [121] [50, 93] _ 10 _ rfl rfl (by decide) (by decide) (by decide)
+      (by intro c h; simp at h; subst h; decide) (Or.inl rfl) (by decide) (by decide) (by decide) (.refl _))
+example : decode [91, 49, 93, 47, 42, 42] = some none := by rfl                                     -- [1]/**
+
 /-- non-vacuity: ` * x ** ` is a comment body (a `*` followed by a blank, and `**`), `x` is a line body; the
     hypotheses of the two theorems hold after `[1` (state INT) -/
 example : AslProofs.XdlCmt.BlockBody [32, 42, 32, 120, 32, 42, 42, 32] :=
